@@ -5,7 +5,7 @@ From FS Require Import Model.Exec Proofs.ExecProofs Proofs.ExecStats Corr.C01.
 
 (* the executor's reverse loop is the right-nested application P1(P2(...Pn(fn))) in declaration order *)
 Theorem C01_compose_is_right_nesting : forall fuel pos p rest total,
-  compose fuel pos (p :: rest) total = apply_policy fuel pos p (compose fuel (S pos) rest total).
+  compose fuel pos (p :: rest) total = apply_policy fuel pos total p (compose fuel (S pos) rest total).
 Proof. exact compose_is_right_nesting. Qed.
 Print Assumptions C01_compose_is_right_nesting.
 
